@@ -140,6 +140,10 @@ impl Results {
             Ok(())
         })();
         if let Err((k, m)) = r {
+            if k == "members" {
+                // C17: exactly the members that are neither skipped nor PhantomData are listed
+                self.fail("C17", def, "corpus-members-listed", m.clone());
+            }
             self.fail("C09", def, &k, m);
         }
         // the same view through a registry: parameter names in order, each with the id of its argument or none
